@@ -255,52 +255,115 @@ def _preparse_ok(text):
 
 
 def _visibly_bound(src, name):
-    """CPython's own symbol tables decide whether `name` is "defined nowhere": True iff EVERY scope that reads the name
-    has a binding of it (assignment incl. walrus targets hoisted out of comprehensions, parameter, import, def/class)
-    in itself or in an enclosing function/module scope (class scopes are skipped, names declared global count only
-    when the module binds them).  A rejection "undeclared name not builtin" of such a name is not the deliberate one."""
-    import symtable
+    """Is `name` "defined nowhere"?  Python's scoping rules applied to the ast: True iff the program reads the name and
+    EVERY read has a binding of it (assignment, walrus target hoisted out of its comprehensions, parameter, import,
+    def/class, except/with/for/match target) in its own scope or in an enclosing function/module scope (class scopes
+    are skipped, comprehension targets stay private, names declared global resolve at module level only).
+    A rejection "undeclared name not builtin" of such a name is not the deliberate one the property allows."""
+    import ast
     try:
-        top = symtable.symtable(src if isinstance(src, str) else src.decode('utf-8', 'replace'), '<c43>', 'exec')
+        tree = ast.parse(src if isinstance(src, str) else src.decode('utf-8', 'replace'))
     except Exception:
         return False
 
-    def binds(table, n):
-        try:
-            sym = table.lookup(n)
-        except KeyError:
-            return False
-        if sym.is_declared_global() and table.get_type() != 'module':
-            return False
-        return sym.is_assigned() or sym.is_parameter() or sym.is_imported() or sym.is_namespace()
+    class S:
+        def __init__(self, kind, parent):
+            self.kind, self.parent, self.bound, self.globals = kind, parent, set(), set()
 
-    readers = []
+    loads = []
+    comps = (ast.ListComp, ast.SetComp, ast.DictComp, ast.GeneratorExp)
 
-    def walk(table, chain):
-        chain = chain + [table]
-        try:
-            sym = table.lookup(name)
-            if sym.is_referenced():
-                readers.append(chain)
-        except KeyError:
-            pass
-        for ch in table.get_children():
-            walk(ch, chain)
-    walk(top, [])
-    if not readers:
+    def owner(sc):
+        while sc.kind == 'comp':
+            sc = sc.parent
+        return sc
+
+    def args_of(a):
+        return [x.arg for x in a.posonlyargs + a.args + a.kwonlyargs] + [x.arg for x in (a.vararg, a.kwarg) if x]
+
+    def visit(node, sc):
+        if isinstance(node, (ast.FunctionDef, ast.AsyncFunctionDef)):
+            sc.bound.add(node.name)
+            for d in node.decorator_list + node.args.defaults + [x for x in node.args.kw_defaults if x]:
+                visit(d, sc)
+            for a in node.args.posonlyargs + node.args.args + node.args.kwonlyargs + [x for x in (node.args.vararg, node.args.kwarg) if x]:
+                if a.annotation:
+                    visit(a.annotation, sc)
+            if node.returns:
+                visit(node.returns, sc)
+            inner = S('function', sc)
+            inner.bound.update(args_of(node.args))
+            for b in node.body:
+                visit(b, inner)
+        elif isinstance(node, ast.Lambda):
+            for d in node.args.defaults + [x for x in node.args.kw_defaults if x]:
+                visit(d, sc)
+            inner = S('function', sc)
+            inner.bound.update(args_of(node.args))
+            visit(node.body, inner)
+        elif isinstance(node, ast.ClassDef):
+            sc.bound.add(node.name)
+            for d in node.decorator_list + node.bases + [k.value for k in node.keywords]:
+                visit(d, sc)
+            inner = S('class', sc)
+            for b in node.body:
+                visit(b, inner)
+        elif isinstance(node, comps):
+            visit(node.generators[0].iter, sc)
+            inner = S('comp', sc)
+            for k, g in enumerate(node.generators):
+                visit(g.target, inner)
+                if k:
+                    visit(g.iter, inner)
+                for c in g.ifs:
+                    visit(c, inner)
+            for e in ([node.key, node.value] if isinstance(node, ast.DictComp) else [node.elt]):
+                visit(e, inner)
+        elif isinstance(node, ast.NamedExpr):
+            owner(sc).bound.add(node.target.id)
+            visit(node.value, sc)
+        elif isinstance(node, ast.Name):
+            if isinstance(node.ctx, ast.Store):
+                sc.bound.add(node.id)
+            elif isinstance(node.ctx, ast.Load) and node.id == name:
+                loads.append(sc)
+        elif isinstance(node, ast.Global):
+            sc.globals.update(node.names)
+        elif isinstance(node, (ast.Import, ast.ImportFrom)):
+            for a in node.names:
+                sc.bound.add((a.asname or a.name).split('.')[0])
+        else:
+            if isinstance(node, ast.ExceptHandler) and node.name:
+                sc.bound.add(node.name)
+            if isinstance(node, (ast.MatchAs, ast.MatchStar)) and node.name:
+                sc.bound.add(node.name)
+            if isinstance(node, ast.MatchMapping) and node.rest:
+                sc.bound.add(node.rest)
+            for ch in ast.iter_child_nodes(node):
+                visit(ch, sc)
+
+    top = S('module', None)
+    visit(tree, top)
+    if not loads:
         return False
-    for chain in readers:
-        own = chain[-1]
-        scopes = [own] + [t for t in reversed(chain[:-1]) if t.get_type() != 'class']
-        if own.get_type() != 'module':
-            try:
-                if own.lookup(name).is_declared_global():
-                    scopes = [chain[0]]
-            except KeyError:
-                pass
-        if not any(binds(t, name) for t in scopes):
+    how = set()
+    for sc in loads:
+        o = sc
+        if name in owner(sc).globals:
+            if name not in top.bound:
+                return False
+            how.add('read in %s scope as declared global' % sc.kind)
+            continue
+        found = sc.kind if name in o.bound else None
+        o = o.parent
+        while o is not None and not found:
+            if o.kind != 'class' and name in o.bound:
+                found = o.kind
+            o = o.parent
+        if not found:
             return False
-    return True
+        how.add('read in %s scope, bound in %s scope' % (sc.kind, found))
+    return '; '.join(sorted(how))
 
 
 def _binding_shape(src, name):
@@ -344,8 +407,11 @@ def _classify_valid(r, bydesign=False, src=None):
         if not bad and src is not None:
             # the allowlist covers names defined NOWHERE: a name CPython's symbol table binds in a visible scope is not one
             for _, _, m in r['msgs']:
-                if ALLOW[0].search(m) and _visibly_bound(src, m.split(': ', 1)[1].strip()):
-                    return ('reject', 'undeclared name not builtin: _ (%s)' % _binding_shape(src, m.split(': ', 1)[1].strip()))
+                nm = m.split(': ', 1)[1].strip() if ALLOW[0].search(m) else None
+                how = nm and _visibly_bound(src, nm)
+                if how:
+                    shape = _binding_shape(src, nm)
+                    return ('reject', 'undeclared name not builtin: _ (%s)' % (how if shape.startswith('the name') else shape))
         if not bad:
             return ('allow', None)
         if bydesign and all(any(b.search(m) for b in BYDESIGN) for m in bad):
